@@ -11,7 +11,8 @@ import (
 // server-initiated ending followed by commands that are already buffered.
 
 type c08X struct {
-	Kind   int // 0 corpus+cuts, 1 QUIT, 2 error flood, 3 over-long line, 4 idle timeout, 5 backend panic, 6 Server.Close, 7 STARTTLS vs Server.Close
+	Frag   string // idle timeout: what the client had sent of a command line when it fell silent
+	Kind   int    // 0 corpus+cuts, 1 QUIT, 2 error flood, 3 over-long line, 4 idle timeout, 5 backend panic, 6 Server.Close, 7 STARTTLS vs Server.Close
 	Conv   *convX
 	Where  string
 	Suffix []string
@@ -126,6 +127,11 @@ func genC08(t *Tape, tier string) *Scenario {
 	case 4:
 		sc.Srv.ReadTO = 10 * time.Minute
 		trig = []Step{{Kind: kStall, Pre: 11 * time.Minute}}
+		if t.Bool() {
+			// the client falls silent in the middle of a command line
+			x.Frag = []string{"NOOP", "RSET", "MAIL FROM:<ok-after-frag@late.example>", "MAIL FR", "QUI", "BDAT 5"}[t.Intn(6)]
+			trig = []Step{{Kind: kGarbage, Data: []byte(x.Frag)}, {Kind: kStall, Pre: 11 * time.Minute}}
+		}
 		glue = false
 	case 5:
 		switch panicWhere {
@@ -181,6 +187,7 @@ func genC08(t *Tape, tier string) *Scenario {
 	cs.defaults()
 	cs.IdleEnd = 30 * time.Second
 	sc.Conns = []ConnScript{cs}
+	cp.LogoutErr = t.Chance(1, 3)
 	sc.BE.Conns = []ConnBackendPlan{cp}
 	sc.Strata = []string{c08Kinds[x.Kind] + "/" + x.Where}
 	return sc
@@ -239,6 +246,16 @@ func checkC08(sc *Scenario, h *History) []Violation {
 			out = append(out, Violation{Rule: "C08.reply-after-close", Detail: fmt.Sprintf("the server tried to write %d more replies after it had closed the connection itself", c.SrvLateWrites), Witness: wit})
 		}
 	}
+	// E. what the client sends after the server had reason to give up is not executed,
+	// whether or not the server got round to closing (the error threshold is left to rule C)
+	if x.Self && x.Kind != 2 {
+		for _, e := range h.Events {
+			if (e.Kind == "Mail" || e.Kind == "Rcpt") && strings.Contains(e.Arg, "ok-after-") {
+				out = append(out, Violation{Rule: "C08.executed-after-giving-up", Detail: fmt.Sprintf("%s(%s) was executed although it follows the %s", e.Kind, e.Arg, c08Kinds[x.Kind]), Witness: wit})
+				break
+			}
+		}
+	}
 	// D. nobody is left behind
 	if h.Leaked > 0 {
 		out = append(out, Violation{Rule: "C08.goroutine-leak", Detail: fmt.Sprintf("%d goroutines still exist one fake hour after the connection ended:\n%s", h.Leaked, clip(h.LeakDump, 3000)), Witness: wit})
@@ -279,7 +296,13 @@ func classifyC08(sc *Scenario, h *History, st *Stats) string {
 	if len(x.Suffix) > 0 {
 		st.Probes["commands_buffered_behind_the_ending"]++
 	}
+	if x.Frag != "" {
+		st.Faults["read_timeout_in_the_middle_of_a_command_line"]++
+	}
 	for _, e := range h.Events {
+		if e.Kind == "Logout" && e.Res != "" {
+			st.Faults["logout_returns_an_error"]++
+		}
 		if e.Kind == "Logout" && e.End-e.Begin > 0 {
 			st.Probes["logout_parked_during_starttls"]++
 		}
@@ -333,7 +356,7 @@ func init() {
 		Real:        []string{"smtp.Server.Serve/handleConn/Close", "smtp.Conn command loop, Close, reset, handleStartTLS, panic recovery", "BDAT delivery goroutine", "crypto/tls (kind 7)", "net/textproto", "bufio"},
 		Stub:        []string{"net.Listener (SimListener)", "net.Conn (SimConn) with cut/RST/half-close/stall", "Backend/Session (SimBackend, panics and parks from the plan)", "clock (synctest)", "SMTP client (raw driver)"},
 		Assumptions: []string{"commands fully received before a peer disconnect may legitimately run; a final line cut before its CRLF is not judged", "callback order is the order in which callbacks began (global sequence number taken on entry)"},
-		Required:    []string{"commands_buffered_behind_the_ending", "server_close_lands_inside_NewSession", "logout_parked_during_starttls", "server_closed_connection_QUIT", "server_closed_connection_error-flood", "server_closed_connection_over-long-line", "server_closed_connection_idle-timeout", "server_closed_connection_backend-panic", "server_closed_connection_Server.Close", "server_closed_connection_STARTTLS-vs-Close", "reply_write_failed", "cut_fin", "cut_rst"},
+		Required:    []string{"commands_buffered_behind_the_ending", "server_close_lands_inside_NewSession", "logout_parked_during_starttls", "server_closed_connection_QUIT", "server_closed_connection_error-flood", "server_closed_connection_over-long-line", "server_closed_connection_idle-timeout", "server_closed_connection_backend-panic", "server_closed_connection_Server.Close", "server_closed_connection_STARTTLS-vs-Close", "reply_write_failed", "cut_fin", "cut_rst", "logout_returns_an_error", "read_timeout_in_the_middle_of_a_command_line"},
 		QuickRuns:   700, ThoroughRuns: 40000,
 	})
 }
